@@ -685,9 +685,7 @@ func (f Function) lambdaPrint(ps *ast.PrintState, out *strings.Builder) string {
 	} else {
 		out.WriteString("=>")
 	}
-	needBraces := len(f.Body.Statements) != 1 ||
-		f.Body.Statements[0].Value().Type() == token.LBRACE ||
-		f.Body.Statements[0].Value().Type() == token.LAMBDA
+	needBraces := len(f.Body.Statements) != 1 || lambdaBodyNeedsBraces(f.Body.Statements[0])
 	if needBraces {
 		out.WriteString("{")
 	}
@@ -696,6 +694,39 @@ func (f Function) lambdaPrint(ps *ast.PrintState, out *strings.Builder) string {
 		out.WriteString("}")
 	}
 	return out.String()
+}
+
+// A single statement body can follow => without braces only if it reads back as the whole body:
+// not a map literal ({ would start a block), not a lambda, not an operator binding as loose as => or
+// looser (x=>a=1 is (x=>a)=1), not a return (not an expression) and not a comment (not printed at all).
+func lambdaBodyNeedsBraces(stmt ast.Node) bool {
+	switch s := stmt.(type) {
+	case *ast.InfixExpression:
+		if ast.Precedences[s.Type()] <= ast.LAMBDA {
+			return true
+		}
+	case *ast.ReturnStatement, *ast.Comment:
+		return true
+	}
+	return startsWithMapLiteral(stmt) || stmt.Value().Type() == token.LAMBDA
+}
+
+// {} == x, {}.k, {}[k], ... all print with a leading { like the map literal itself.
+func startsWithMapLiteral(node ast.Node) bool {
+	for {
+		switch n := node.(type) {
+		case *ast.MapLiteral:
+			return true
+		case *ast.InfixExpression:
+			node = n.Left
+		case *ast.IndexExpression:
+			node = n.Left
+		case *ast.CallExpression:
+			node = n.Function
+		default:
+			return false
+		}
+	}
 }
 
 // Common part of Inspect and SetCacheKey. Outputs the rest of the function.
